@@ -22,7 +22,8 @@ RULE = ("job = seed -> (client settings, server settings) drawn independently "
         "settings; a failed handshake fails with a TLS alert.  distinct = "
         "digest(settings pair, flavour); non-trivial = both settings differ "
         "from the defaults in >=1 dimension and the handshake reached a "
-        "verdict (completed, or failed with an alert)")
+        "verdict (completed, or failed with an alert)"
+        ' PSK flavour draws psk_modes on both sides; the mode actually used (key_share in ServerHello or not) must lie inside both policies.')
 LEVEL_TEXT = ("Seeded exploration of settings pairs; disjoint and partially "
               "overlapping policies are frequent by construction.  The "
               "containment oracle parses the negotiated suite from its IANA "
